@@ -20,8 +20,16 @@ type objectClass struct {
 }
 
 func objectEnumerate(obj *object, all bool, each func(string) bool) {
-	for _, name := range obj.propertyOrder {
-		if all || obj.property[name].enumerable() {
+	// Iterate over a snapshot of the order: the callback may add or delete
+	// properties (a for-in body); a property deleted before its turn is skipped.
+	order := make([]string, len(obj.propertyOrder))
+	copy(order, obj.propertyOrder)
+	for _, name := range order {
+		prop, exists := obj.property[name]
+		if !exists {
+			continue
+		}
+		if all || prop.enumerable() {
 			if !each(name) {
 				return
 			}
